@@ -409,8 +409,138 @@ fn run_in_child(op_line: &str) -> String {
 }
 
 /// body of the child process: `pcop <h0|h1> <toks>`
+/// Pristine process: `threads` threads are released together; each installs the catcher's
+/// hook (all racing on their FIRST `panic_catcher_set_hook` call), enables catching and then
+/// repeatedly catches a panic with a unique message. Every `catch_panic` must return the text
+/// of its own panic: a call made by another thread must not alter it.
+fn race_child(threads: usize, iters: usize) -> String {
+    install_sentinel();
+    let barrier = std::sync::Arc::new(std::sync::Barrier::new(threads));
+    let mut hs = Vec::new();
+    for t in 0..threads {
+        let barrier = barrier.clone();
+        hs.push(
+            std::thread::Builder::new()
+                .name(format!("race{t}"))
+                .spawn(move || -> Option<String> {
+                    barrier.wait();
+                    // stagger the first calls so that one thread can be between `take_hook`
+                    // and `set_hook` while another one is already catching panics
+                    let spin = std::time::Instant::now();
+                    while spin.elapsed() < Duration::from_micros((t as u64 * 37) % 400) {
+                        std::hint::spin_loop();
+                    }
+                    panic_catcher_set_hook();
+                    panic_catcher_enable();
+                    for k in 0..iters {
+                        let msg = format!("race-{t}-{k}");
+                        let m2 = msg.clone();
+                        match catch_panic::<_, ()>(move || panic!("{}", m2)) {
+                            Ok(_) => return Some(format!("thread {t} iteration {k}: catch_panic returned Ok")),
+                            Err(text) if !text.contains(&msg) => {
+                                return Some(format!(
+                                    "thread {t} iteration {k}: error text lacks the panic message {msg:?}: {:?}",
+                                    text.chars().take(80).collect::<String>()
+                                ));
+                            }
+                            Err(_) => {}
+                        }
+                    }
+                    None
+                })
+                .expect("spawn"),
+        );
+    }
+    let mut bad = Vec::new();
+    for h in hs {
+        match h.join() {
+            Ok(None) => {}
+            Ok(Some(b)) => bad.push(b),
+            Err(_) => bad.push("a racing thread panicked outside catch_panic".to_string()),
+        }
+    }
+    if bad.is_empty() { "ok".to_string() } else { format!("lost: {}", bad[0]) }
+}
+
+/// Deterministic two-thread interleaving of two FIRST `panic_catcher_set_hook` calls, using
+/// the cfg-guarded pause points: B decides to install and is held; A installs completely;
+/// B then takes the hook (A's) and is held before setting its own; meanwhile A, whose
+/// `panic_catcher_set_hook()` has returned, catches a panic. The property demands that A's
+/// `catch_panic` returns the text of A's panic whatever B is doing.
+fn race2_child() -> String {
+    use wirefilter::verif_hooks as vh;
+    install_sentinel();
+    let wait_held = |id: u32, ms: u64| -> bool {
+        let t = std::time::Instant::now();
+        while vh::pause_held() != id {
+            if t.elapsed() > Duration::from_millis(ms) {
+                return false;
+            }
+            std::thread::yield_now();
+        }
+        true
+    };
+    vh::pause_arm(vh::PAUSE_SET_HOOK_DECIDED);
+    let b = std::thread::spawn(|| panic_catcher_set_hook());
+    if !wait_held(vh::PAUSE_SET_HOOK_DECIDED, 3000) {
+        return "setup: thread B never reached the first pause point".to_string();
+    }
+    let (done_tx, done_rx) = channel::<()>();
+    let (go_tx, go_rx) = channel::<()>();
+    let a = std::thread::spawn(move || {
+        panic_catcher_set_hook();
+        let _ = done_tx.send(());
+        let _ = go_rx.recv();
+        panic_catcher_enable();
+        catch_panic::<_, ()>(|| panic!("race2-message"))
+    });
+    let a_returned_early = done_rx.recv_timeout(Duration::from_millis(400)).is_ok();
+    if a_returned_early {
+        // A's installation completed while B was still deciding: let B take the hook now
+        vh::pause_arm(vh::PAUSE_SET_HOOK_TAKEN);
+        vh::pause_release(vh::PAUSE_SET_HOOK_DECIDED);
+        let held = wait_held(vh::PAUSE_SET_HOOK_TAKEN, 3000);
+        let _ = go_tx.send(());
+        let res = a.join();
+        if held {
+            vh::pause_release(vh::PAUSE_SET_HOOK_TAKEN);
+        }
+        let _ = b.join();
+        verdict(res)
+    } else {
+        // installations are serialised: A waits for B; nothing can be lost
+        vh::pause_release(vh::PAUSE_SET_HOOK_DECIDED);
+        let _ = done_rx.recv_timeout(Duration::from_millis(5000));
+        let _ = go_tx.send(());
+        let res = a.join();
+        let _ = b.join();
+        verdict(res)
+    }
+}
+
+fn verdict(res: std::thread::Result<Result<(), String>>) -> String {
+    match res {
+        Ok(Err(text)) if text.contains("race2-message") => "ok".to_string(),
+        Ok(Err(text)) => format!(
+            "lost: catch_panic on thread A returned a text without A's panic message while thread B was inside its first panic_catcher_set_hook(): {:?}",
+            text.chars().take(90).collect::<String>()
+        ),
+        Ok(Ok(())) => "lost: catch_panic returned Ok".to_string(),
+        Err(_) => "lost: thread A's panic was not caught".to_string(),
+    }
+}
+
 pub fn child(op: &str) -> Option<String> {
     let w: Vec<&str> = op.split(' ').collect();
+    if w.len() == 1 && w[0] == "race2" {
+        println!("{}", race2_child());
+        return Some("child-done".into());
+    }
+    if w.len() == 3 && w[0] == "race" {
+        let r = race_child(w[1].parse().ok()?, w[2].parse().ok()?);
+        println!("{r}");
+        return Some("child-done".into());
+    }
     if w.len() != 3 || w[0] != "pcop" {
         return None;
     }
@@ -587,6 +717,53 @@ pub fn run(cfg: Cfg, out: &mut Out) {
     }
     let part = std::env::var("WFH_PCOP_PART").unwrap_or_default(); // debugging aid: run one part only
     let on = |p: &str| part.is_empty() || part == p;
+    // (0) racing first installations of the hook, in pristine child processes
+    if on("race") {
+        let n = cfg.share(if cfg.quick() { 48 } else { 1_200 });
+        for k in 0..n {
+            let threads = [4usize, 8, 16][(k % 3) as usize];
+            let op = format!("oracle pcop-race {threads} 25 #{}-{k}", cfg.shard);
+            let exe = std::fs::read_link("/proc/self/exe").unwrap_or_else(|_| std::env::current_exe().unwrap());
+            let res = std::process::Command::new(exe)
+                .args(["replay", "pcop-child", "race", &threads.to_string(), "25"])
+                .stderr(std::process::Stdio::null())
+                .output();
+            let ans = match res {
+                Ok(o) => {
+                    let s = String::from_utf8_lossy(&o.stdout);
+                    let first = s.lines().next().unwrap_or("").to_string();
+                    if first == "ok" { "ok".to_string() } else if first.is_empty() { format!("child died: {:?}", o.status) } else { first }
+                }
+                Err(e) => format!("spawn failed: {e}"),
+            };
+            if ans != "ok" {
+                out.impl_failure(&op, &format!("{threads} threads racing their first panic_catcher_set_hook(): {ans}"));
+            }
+            out.case(&op, &ans.replace(' ', "_"), Some(&op), &["race"]);
+        }
+    }
+    if on("race") && cfg.shard == 0 {
+        for k in 0..3 {
+            let op = format!("oracle pcop-race2 #{k}");
+            let exe = std::fs::read_link("/proc/self/exe").unwrap_or_else(|_| std::env::current_exe().unwrap());
+            let res = std::process::Command::new(exe)
+                .args(["replay", "pcop-child", "race2"])
+                .stderr(std::process::Stdio::null())
+                .output();
+            let ans = match res {
+                Ok(o) => {
+                    let s = String::from_utf8_lossy(&o.stdout);
+                    let first = s.lines().next().unwrap_or("").to_string();
+                    if first.is_empty() { format!("child died: {:?}", o.status) } else { first }
+                }
+                Err(e) => format!("spawn failed: {e}"),
+            };
+            if ans != "ok" {
+                out.impl_failure(&op, &format!("two racing first panic_catcher_set_hook() calls: {ans}"));
+            }
+            out.case(&op, &ans.replace(' ', "_"), Some(&op), &["race2"]);
+        }
+    }
     // (3) two threads, sequences up to length 3 each, interleaved step by step (first in the
     // output: a cross-thread leak is reported with a self-contained two-thread history)
     let mut rng = cfg.rng();
